@@ -837,24 +837,24 @@ func c02Sets(c *Ctx) {
 			if !ok || fd.Body == nil {
 				continue
 			}
-			ast.Inspect(fd.Body, func(n ast.Node) bool {
-				call, ok := n.(*ast.CallExpr)
-				if !ok {
-					return true
+			if !strings.HasPrefix(fd.Name.Name, "aggregate") {
+				continue
+			}
+			// the head the function emits, whether it is formatted or concatenated (E-sym texts, holes as %s)
+			proto := &symWalker{Inline: func(*types.Func) bool { return false }}
+			proto.OnText = func(w *symWalker, at ast.Expr, text *Sym) {
+				if w.depth != 0 || text == nil {
+					return
 				}
-				if call, ok = normSprintf(info, call); !ok {
-					return true
+				f := holeText.ReplaceAllString(text.Template(), "%s")
+				switch {
+				case strings.HasPrefix(f, "%s[") && strings.HasSuffix(strings.TrimSpace(f), "{"):
+					headKinds[fd.Name.Name] = "set"
+				case strings.HasPrefix(f, "%s = ["):
+					headKinds[fd.Name.Name] = "array"
 				}
-				if f, ok := constString(info, call.Args[0]); ok {
-					switch {
-					case strings.HasPrefix(f, "%s[") && strings.HasSuffix(strings.TrimSpace(f), "{") && strings.HasPrefix(fd.Name.Name, "aggregate"):
-						headKinds[fd.Name.Name] = "set"
-					case strings.HasPrefix(f, "%s = [") && strings.HasPrefix(fd.Name.Name, "aggregate"):
-						headKinds[fd.Name.Name] = "array"
-					}
-				}
-				return true
-			})
+			}
+			p.SymWalk(gen, fd, proto, nil)
 		}
 	}
 	// entry functions that select an aggregator
